@@ -161,6 +161,10 @@ func (s *Service) OnExecute(ctx context.Context, senderID uint64, account string
 			if err != nil {
 				return errors.Wrap(err, "failed to send contribution")
 			}
+			if uint64(len(recipientVVec)) != uint64(generation.threshold) {
+				log.Warn().Msg("Contribution has incorrect number of verification vector entries")
+				return fmt.Errorf("invalid verification vector from %d", id)
+			}
 			if !verifyContribution(generation.id, recipientSecret, recipientVVec) {
 				log.Warn().Msg("Contribution invalid")
 				return fmt.Errorf("invalid contribution from %d", id)
@@ -296,6 +300,10 @@ func (s *Service) OnContribute(ctx context.Context,
 		return bls.SecretKey{}, nil, err
 	}
 
+	if uint64(len(vVec)) != uint64(generation.threshold) {
+		log.Warn().Uint64("sender", senderID).Str("account", account).Msg("Received contribution with incorrect number of verification vector entries")
+		return bls.SecretKey{}, nil, fmt.Errorf("invalid verification vector from %d", senderID)
+	}
 	if !verifyContribution(generation.id, secret, vVec) {
 		log.Warn().Uint64("sender", senderID).Str("account", account).Msg("Received invalid contribution")
 		return bls.SecretKey{}, nil, fmt.Errorf("invalid contribution from %d", senderID)
